@@ -93,6 +93,13 @@ def run(ctx):
             prev = None
             hist_payload = []
             focus_sat = rng.choice(sats)
+            # some histories pass ONE custom dict object to several requests (a settings dict reused for every file of a batch)
+            shared = None
+            if h % 3 == 1 and length > 1:
+                common = sorted(set.intersection(*[set(tables[0][s_]) for s_ in sats]))
+                sk = rng.sample(common, rng.choice([1, 2]))
+                shared = {k_: perturb(copy.deepcopy(tables[0][focus_sat][k_]), rng) for k_ in sk}
+            live_shared = copy.deepcopy(shared)
             for i in range(length):
                 sat = focus_sat if rng.random() < 0.6 else rng.choice(sats)
                 f = rng.choice([0, 0, 1, 2]) if rng.random() < 0.5 and prev else (prev[1] if prev else rng.choice([0, 1, 2]))
@@ -109,15 +116,21 @@ def run(ctx):
                     keep = sorted(rng.sample(sorted(full), rng.randint(1, max(1, len(full) - 1))))
                     custom[tk] = {k2: full[k2] for k2 in keep}
                     ck = sorted(set(ck) | {keys.index(tk)})
-                reqs.append((sat, f, keys, ck, custom))
+                if shared is not None and rng.random() < 0.7:
+                    custom = copy.deepcopy(shared)
+                    ck = sorted(keys.index(k_) for k_ in shared)
+                    reqs.append((sat, f, keys, ck, custom, True))
+                else:
+                    reqs.append((sat, f, keys, ck, custom, False))
                 hist_payload.append({"sat": sat, "file": f, "custom_keys": [keys[k] for k in ck]})
                 prev = (sat, f)
             tokens = []
-            for i, (sat, f, keys, ck, custom) in enumerate(reqs):
+            for i, (sat, f, keys, ck, custom, use_shared) in enumerate(reqs):
                 with warnings.catch_warnings():
                     warnings.simplefilter("ignore")
                     try:
-                        cal = Calibrator(sat, custom_coeffs=(copy.deepcopy(custom) or None), coeffs_file=paths[f])
+                        cal = Calibrator(sat, custom_coeffs=(live_shared if use_shared else (copy.deepcopy(custom) or None)),
+                                         coeffs_file=paths[f])
                     except Exception as e:
                         ctx.violation("request %d (%s, file %d, custom %s) raised %s: %s" % (i, sat, f, list(custom), type(e).__name__, e),
                                       {"history": hist_payload, "at": i}, cls="raises:%s" % type(e).__name__)
@@ -131,7 +144,8 @@ def run(ctx):
                     earlier = [r for r in hist_payload[:i] if r["custom_keys"] or r["file"] != f]
                     ctx.violation("history of %d requests%s, request %d = (%s, file %d, custom keys %s): fields %s differ from the pure "
                                   "function of (spacecraft, custom, file content) e.g. %s=%s expected %s" % (
-                                      i + 1, " (process state carried over)" if carried else "", i, sat, f, list(custom), bad,
+                                      i + 1, (" (process state carried over)" if carried else "") +
+                                      (" (one custom dict object passed to several requests)" if use_shared else ""), i, sat, f, list(custom), bad,
                                       bad[0], np.asarray(getattr(cal, bad[0])).ravel()[:3], np.asarray(want[bad[0]]).ravel()[:3]),
                                   {"history": hist_payload[:i + 1], "carried": carried},
                                   cls="impure:%s" % ("version" if bad == ["version"] else "values"))
